@@ -163,7 +163,7 @@ func genLiveScn(t *rapid.T, big bool) liveScn {
 		c.Back = rapid.OneOf(rapid.Just(0), rapid.IntRange(1, 2000), rapid.IntRange(1, maxTotal/4)).Draw(t, "back")
 		for j, n := 0, rapid.IntRange(1, 5).Draw(t, "nchunks"); j < n; j++ {
 			c.Chunks = append(c.Chunks, rapid.OneOf(rapid.IntRange(1, 100), rapid.IntRange(1, 9000), rapid.IntRange(4000, 300000), rapid.SampledFrom([]int{4095, 4096, 4097, 8192})).Draw(t, "chunk"))
-			c.APIs = append(c.APIs, rapid.IntRange(0, 5).Draw(t, "api"))
+			c.APIs = append(c.APIs, rapid.IntRange(0, 7).Draw(t, "api"))
 		}
 		for j, n := 0, rapid.IntRange(1, 5).Draw(t, "nreads"); j < n; j++ {
 			c.Reads = append(c.Reads, rapid.OneOf(rapid.IntRange(1, 100), rapid.IntRange(1, 9000), rapid.IntRange(4000, 100000)).Draw(t, "read"))
@@ -352,6 +352,24 @@ func writeStream(conn Connection, base, total int, chunks, apis []int) error {
 			}
 			if err == nil {
 				err = w.Flush()
+			}
+		case 6:
+			// a buffer built elsewhere, handed over with Append (what mux.ShardQueue does)
+			lb := NewLinkBuffer(k)
+			p, _ := lb.Malloc(k)
+			copy(p, data)
+			lb.Flush()
+			if err = w.Append(lb); err == nil {
+				err = w.Flush()
+			}
+		case 7:
+			// reserve more than needed, give the rest back
+			var p []byte
+			if p, err = w.Malloc(k + 1 + k/3); err == nil {
+				copy(p, data)
+				if err = w.MallocAck(k); err == nil {
+					err = w.Flush()
+				}
 			}
 		default:
 			var p []byte
